@@ -330,13 +330,13 @@ Proof.
   - split; [eapply same_trans; [exact Hs|apply same_mv]|]. cbn [mv lpos]. split; [lia|]. apply Hstep1. left. exact Hc60.
 Qed.
 
-Lemma plaintext_loop_run z fuel z' : loop fuel plaintext_body z = Ok z' -> at_end z' = true.
+Lemma plaintext_loop_run c z h fuel r : loop fuel (with_tmpl_lx c plaintext_body) (z, h) = Ok r -> at_end (fst r) = true.
 Proof.
-  intros H.
-  refine (loop_inv (fun _ => True) (fun r => at_end r = true) plaintext_body _ _ z z' I H).
-  clear. intros s x _ Hx. unfold plaintext_body in Hx.
-  destruct (pkr s 0) as [c| |]; cbn [rbind] in Hx; try discriminate.
-  destruct (eof0 s c) eqn:Ee; injection Hx as <-; [|exact I]. unfold eof0 in Ee. b2p. assumption.
+  intros H. unfold with_tmpl_lx in H.
+  refine (with_tmpl_inv c _ _ (fun _ => True) (fun r : lx * bool => at_end (fst r) = true) plaintext_body _ _ fuel (z, h) r I H); [tauto|].
+  clear. intros s h0 x _ Hx. unfold plaintext_body in Hx.
+  destruct (pkr s 0) as [c0| |]; cbn [rbind] in Hx; try discriminate.
+  destruct (eof0 s c0) eqn:Ee; injection Hx as <-; [|exact I]. cbn [fst]. unfold eof0 in Ee. b2p. assumption.
 Qed.
 
 (* end_tag_gen only looks at the bytes from p on (and at the length of the buffer) *)
